@@ -40,6 +40,10 @@ struct World {
     std::unique_ptr<TestClient> client;
     std::vector<std::shared_ptr<Req>> reqs;
     bool open = false, sm = false;
+    // the current session was negotiated through the stream-management manager with a real <enabled/>: whether it can be
+    // resumed is what the server said there (-1: session set up through the test switches, the tape decides at disconnect)
+    int serverAllowsResume = -1;
+    bool clientEndedStream = false;   // the client itself closed the stream (it does on an <iq/> without a type): never resumable
     std::string history;
     int nextId = 0;
     bool interesting = false;
@@ -220,8 +224,11 @@ VCHECK("c07.iq", 300)
                 }
                 // re-entrant effects are applied by the handler itself (onCompleted) on the model too
             }
-            if (w.open)
+            if (w.open) {
+                if (type.isEmpty())
+                    w.clientEndedStream = true;   // "Unexpected element received": the client ends the stream cleanly
                 cl.injectXml(xml);
+            }
             break;
         }
         case 2: {   // duplicate reply for a request that is already complete
@@ -244,7 +251,8 @@ VCHECK("c07.iq", 300)
         case 4: {   // disconnect
             if (!w.open)
                 break;
-            bool resumable = w.sm && t.b();
+            const bool negotiated = w.sm && w.serverAllowsResume >= 0;
+            bool resumable = negotiated ? (w.serverAllowsResume == 1 && !w.clientEndedStream) : (w.sm && t.b());
             w.history += resumable ? " disconnect(resumable)" : " disconnect(not-resumable)";
             c.label(std::string(resumable ? "disconnect(resumable)" : "disconnect(not-resumable)") + (pending.empty() ? "" : " with requests pending"));
             if (!pending.empty())
@@ -252,7 +260,8 @@ VCHECK("c07.iq", 300)
             w.open = false;
             if (!resumable)
                 modelCancelAll(w, "closed");
-            cl.setSmCanResume(resumable);
+            if (!negotiated)
+                cl.setSmCanResume(resumable);
             cl.closeSession();
             break;
         }
@@ -269,11 +278,30 @@ VCHECK("c07.iq", 300)
                 modelCancelAll(w, "new session");
             w.sm = kind != 2;
             w.open = true;
+            w.serverAllowsResume = -1;
+            w.clientEndedStream = false;
+            if (kind == 1 && t.b()) {
+                // a new session on which stream management is enabled by the real exchange: <enable/> out, <enabled/> in,
+                // with or without permission to resume
+                auto &c2s = cl.c2s();
+                c2s.onStreamStart();
+                cl.setAuthenticated(true);
+                auto task = c2s.requestEnable();
+                w.serverAllowsResume = t.b() ? 1 : 0;
+                auto p = xu::parseFragment(w.serverAllowsResume ? QStringLiteral("<enabled xmlns='urn:xmpp:sm:3' id='sid' resume='true'/>") : QStringLiteral("<enabled xmlns='urn:xmpp:sm:3' id='sid'/>"));
+                c2s.handleElement(p.el);
+                cl.openSession();
+                w.history += w.serverAllowsResume ? "[<enabled resume/>]" : "[<enabled/> without resume]";
+                c.label(w.serverAllowsResume ? "negotiated:<enabled resume/>" : "negotiated:<enabled/> without resume");
+                break;
+            }
             cl.beginSession(kind != 2, kind == 0);
             break;
         }
         }
         cl.pump(1);
+        if (getenv("C07_DEBUG"))
+            w.history += std::string("{cr=") + (cl.c2s().canResume() ? "1" : "0") + "}";
         check(w, c, "after step");
     }
     // final non-resumable close: every request must have completed exactly once
